@@ -13,8 +13,11 @@ sum is exact on both sides and results are compared with ==, never with a tolera
 import copy
 import hashlib
 import json
+import inspect
 import math
+import re
 import struct
+import sys
 from fractions import Fraction
 
 from harness.common import exc_name
@@ -531,9 +534,12 @@ def gen_initbins_case(rng, tier):
         dim = rng.choice([1, 1, 2, 3])
         axes = [gen_axis(rng, rng.randint(2, 6), rng.choice(FAMILIES)) for _ in range(dim)]
         edges = axes[0] if dim == 1 and rng.random() < 0.6 else axes
+        kinds = [_pick_kind(rng, a) for a in axes]
     else:
+        kinds = None
         edges = rng.choice([[], [5], [[]], [[1, 2], []], [[], [1, 2, 3]], [[1]], [[1, 2, 3], [4]], [3, 1], [[2, 1], [0, 0, 0]]])
-    return {"op": "initbins", "edges": edges, "init": rng.choice([0, 0, 1, -2, 2.5, 0.0]), "deep": rng.random() < 0.5}
+    return {"op": "initbins", "edges": edges, "init": rng.choice([0, 0, 1, -2, 2.5, 0.0]), "deep": rng.random() < 0.5,
+            "axes_as": kinds, "edges_as": "tuple" if kinds and rng.random() < 0.2 else "list"}
 
 
 def gen_cases(ctx):
@@ -587,13 +593,15 @@ def run_impl(case):
     op = case["op"]
     if op == "bin1d":
         out = []
+        arr = _as_kind(case["arr"], (case.get("axes_as") or ["list"])[0])
         for v in case["vals"]:
             try:
-                out.append(hf.get_bin_on_value_1d(v, case["arr"]))
+                out.append(hf.get_bin_on_value_1d(v, arr))
             except Exception as e:
                 out.append({"e": exc_name(e)})
         return {"r": out}
-    edges = copy.deepcopy(case["edges"])
+    edges = build_edges(case)
+    edges0 = build_edges(case)           # an equal, separate object: "the edges are unchanged" is judged against it
     bins = copy.deepcopy(case.get("bins"))
     if op == "hist":
         try:
@@ -638,7 +646,7 @@ def run_impl(case):
             res["steps"].append(step)
         res["bins"] = _sc_nested(h.bins)
         res["oor"] = _scaled(h.n_out_of_range)
-        res["edges_same"] = h.edges == case["edges"] and type(h.edges) is type(case["edges"])
+        res["edges_same"] = h.edges == edges0 and type(h.edges) is type(edges0)
         return res
     if op == "elem":
         try:
@@ -669,13 +677,19 @@ def run_impl(case):
             h, cx = ys[0]
         return {"bins": _sc_nested(h.bins), "oor": _scaled(h.n_out_of_range),
                 "ctx": cx.get("k") if isinstance(cx, dict) else "not-a-dict",
-                "edges_same": h.edges == case["edges"]}
+                "edges_same": h.edges == edges0}
     if op == "initbins":
         try:
-            b = hf.init_bins(copy.deepcopy(case["edges"]), case["init"], deepcopy=case["deep"])
+            b = hf.init_bins(build_edges(case), case["init"], deepcopy=case["deep"])
+            res = {"bins": _sc_nested(b)}
         except Exception as e:
-            return {"e": exc_name(e)}
-        return {"bins": _sc_nested(b)}
+            res = {"e": exc_name(e)}
+        try:
+            hf.check_edges_increasing(build_edges(case))
+            res["chk"] = "ok"
+        except Exception as e:
+            res["chk"] = exc_name(e)
+        return res
     if op == "elem2":
         mk = copy.deepcopy(case["mk"])
 
@@ -713,12 +727,12 @@ def run_impl(case):
             h, cx = ys[0]
         res = {"bins": _sc_nested(h.bins), "oor": _scaled(h.n_out_of_range),
                "ctx": cx.get("k") if isinstance(cx, dict) else "not-a-dict",
-               "edges_same": h.edges == case["edges"]}
+               "edges_same": h.edges == edges0}
         # reset() of the used element against a newly constructed one
         try:
             el.reset()
             h2 = getattr(el, "_hist", None) or list(el.compute())[0][0]
-            new = ls.Histogram(copy.deepcopy(case["edges"]), **kwargs())
+            new = ls.Histogram(build_edges(case), **kwargs())
             hn = getattr(new, "_hist", None) or list(new.compute())[0][0]
             res["fresh"] = (_sc_nested(h2.bins) == _sc_nested(hn.bins)
                             and _scaled(h2.n_out_of_range) == _scaled(hn.n_out_of_range))
@@ -754,6 +768,70 @@ def guess_path(val, arr):
         else:
             lo = g
     return out
+
+
+_TRACE_SETUP = []
+
+
+def _trace_setup():
+    """where the real get_bin_on_value_1d assigns its local `ind_guess` (None if the function no longer has the locals
+    ind_min / ind_max / ind_guess: then only outcomes are compared)"""
+    if not _TRACE_SETUP:
+        setup = None
+        try:
+            from lena.structures import hist_functions as hf
+            f = hf.get_bin_on_value_1d
+            code = f.__code__
+            lines, start = inspect.getsourcelines(f)
+            assign = frozenset(start + i for i, l in enumerate(lines) if re.match(r"\s*ind_guess\s*=[^=]", l))
+            if assign and {"ind_min", "ind_max", "ind_guess"} <= set(code.co_varnames):
+                setup = (f, code, assign)
+        except Exception:
+            setup = None
+        _TRACE_SETUP.append(setup)
+    return _TRACE_SETUP[0]
+
+
+def real_guess_path(val, arr):
+    """The interpolation guesses of the REAL code: get_bin_on_value_1d(val, arr) is run under sys.settrace and the locals
+    (ind_min, ind_max, ind_guess) are read right after every assignment of ind_guess.  Flat table [lo, hi, guess, ...];
+    None when the real function cannot be observed this way."""
+    setup = _trace_setup()
+    if setup is None:
+        return None
+    f, code, assign = setup
+    out, state = [], [None]
+
+    def local(frame, event, arg):
+        if event == "line":
+            if state[0] in assign:
+                loc = frame.f_locals
+                out.append((loc.get("ind_min"), loc.get("ind_max"), loc.get("ind_guess")))
+            state[0] = frame.f_lineno
+        return local
+
+    def glob(frame, event, arg):
+        return local if frame.f_code is code else None
+    old = sys.gettrace()
+    sys.settrace(glob)
+    try:
+        f(val, arr)
+    except Exception:
+        pass
+    finally:
+        sys.settrace(old)
+    if not all(type(x) is int for t in out for x in t):
+        return None
+    return [x for t in out for x in t]
+
+
+def guess_table(val, arr, full=False):
+    """the guess table handed to the model for one search: first the guesses observed in the real code, then the
+    harness's evaluation of the source expression (used where the real search was not observed: states it did not
+    visit, or a real function that cannot be traced).  Returns (table, traced?)"""
+    real = real_guess_path(val, arr)
+    own = guess_full(val, arr) if full else [y for r in guess_path(val, arr) for y in r]
+    return (real or []) + own, real is not None
 
 
 def guess_full(val, arr):
@@ -822,19 +900,21 @@ def _mbins(b):
     return _sc_nested(b)
 
 
-def _mfill(f, edges, rk):
+def _mfill(f, edges, rk, full=False):
     c = f["c"]
     tab = []
     if "s" in c:
         mc = {"s": rk(c["s"])}
         if not _is_axes(edges) and len(edges) > 0:
-            tab = [y for r in guess_path(c["s"], edges) for y in [0] + r]
+            tab = [y for i, y in enumerate(guess_table(c["s"], edges, full)[0])]
+            tab = [z for i in range(0, len(tab), 3) for z in [0] + tab[i:i + 3]]
     else:
         mc = {"t": [rk(x) for x in c["t"]]}
         if _is_axes(edges) and len(edges) == len(c["t"]):
             for k, (x, a) in enumerate(zip(c["t"], edges)):
                 if len(a) > 0:
-                    tab += [y for r in guess_path(x, a) for y in [k] + r]
+                    t = guess_table(x, a, full)[0]
+                    tab += [z for i in range(0, len(t), 3) for z in [k] + t[i:i + 3]]
     return mc, tab
 
 
@@ -848,7 +928,7 @@ def model_requests(case):
         all_i = all(type(x) is int and abs(x) < 2 ** 62 for x in src)
         reqs = []
         for v in case["vals"]:
-            tab = guess_full(v, src) if case.get("full") else [y for r in guess_path(v, src) for y in r]
+            tab, _ = guess_table(v, src, bool(case.get("full")))
             q = {"op": "bin1d", "arr": arr, "val": rk(v), "g": tab, "full": bool(case.get("full"))}
             if all_f and type(v) is float:
                 q["arrf"] = [_bits(x) for x in src]
@@ -862,10 +942,12 @@ def model_requests(case):
     if op == "initbins":
         return [{"op": "initbins", "edges": _medges(edges, rk), "init": _scaled(case["init"]), "deep": case["deep"]}]
     req = {"op": op, "edges": _medges(edges, rk), "bins": _mbins(case["bins"]), "init": _scaled(case["init"])}
+    if op == "hist":
+        req["full"] = bool(case.get("full"))
     axes = _valid_axes(edges)
     items = []
     for f in case["fills"]:
-        mc, tab = _mfill(f, edges, rk)
+        mc, tab = _mfill(f, edges, rk, bool(case.get("full")) and op == "hist")
         it = {"c": mc, "g": tab}
         if op == "hist":
             it["w"] = _scaled(f["w"])
@@ -914,13 +996,12 @@ def compare(case, res, replies):
             if len(arr) >= 1 and m["vis"] is not True:
                 return f"{where}: the float guess left [ind_min, ind_max] at a visited state (visitedInRange false)"
             path = [y for t in guess_path(v, arr) for y in t]
-            if len(arr) >= 1 and m["trace"] != path:
-                return f"{where}: visited states/guesses: model {m['trace']} vs the search path {path}"
             if case.get("full"):
                 tab = guess_full(v, arr)
                 py_ok = all(tab[i] <= tab[i + 2] <= tab[i + 1] for i in range(0, len(tab), 3))
-                if m["okat"] != py_ok or not py_ok:
-                    return f"{where}: GuessOKAt on the real float guesses: model {m['okat']}, Python {py_ok}"
+                if m["okat"] is not True or not py_ok:
+                    return (f"{where}: GuessOKAt on the float guesses (observed in the real code where it consulted them, "
+                            f"the source expression elsewhere): model {m['okat']}, Python {py_ok}")
             if m["cnt"] != sum(1 for e in arr if e <= v) or m["inc"] != _strict(arr):
                 return f"{where}: countLE/StrictInc: model {m['cnt']}/{m['inc']}"
             if "fr" in m:
@@ -937,6 +1018,8 @@ def compare(case, res, replies):
         m = replies[0]
         a = res.get("bins", {"e": res.get("e")})
         b = m.get("bins", {"e": m.get("e")})
+        if res["chk"] != m["chk"]:
+            return f"check_edges_increasing({case['edges']!r}): impl {res['chk']} vs model {m['chk']}"
         if a != b:
             return f"init_bins({case['edges']!r}, {case['init']!r}, deepcopy={case['deep']}): impl {a} vs model {b}"
         axes = _valid_axes(case["edges"])
@@ -1034,6 +1117,8 @@ def _compare_spec(case, res, sp):
             return f"fill #{i} {xs!r}: indices/cellOf?/InRange: model {q['ind']}/{q['cell']}/{q['inr']} vs {ind}/{cell}"
         if cell is not None and q["pc_incell"] is not True:
             return f"fill #{i} {xs!r}: InCell {cell}: model {q['pc_incell']}"
+        if case.get("full") and q.get("gokat") is not True:
+            return f"fill #{i} {xs!r}: GuessesOKAt on the float guesses of all axes: model {q.get('gokat')}"
         if wf and "e" in st:
             return f"fill #{i} {xs!r}: a proper fill into a well-formed histogram raised {st['e']}"
     if sp["sumw"] != sumw:
@@ -1176,7 +1261,17 @@ def oracle(case, res):
                 if "e" in st and st.get("chg"):
                     return f"fill #{i} with {f['c']} raised {st['e']} but changed cells {st['chg']}"
                 if "e" not in st:
-                    return None    # some other behaviour for a malformed coordinate: outside the statement
+                    # some other behaviour for a malformed coordinate: outside the statement; go on from the observed state
+                    if st.get("shape_changed"):
+                        return None
+                    for idx_, new_ in st.get("chg", []):
+                        if not isinstance(new_, int):
+                            return None
+                        _get(ref, idx_[:-1])[idx_[-1]] = new_
+                    if not isinstance(st["oor"], int):
+                        return None
+                    ref_oor = st["oor"]
+                    init_total = _total(ref) + ref_oor - total_w
                 continue
             w = _scaled(f["w"])
             where = f"fill #{i}: coord {xs!r}, weight {f['w']!r}, edges {case['edges']!r}"
